@@ -115,6 +115,9 @@ impl Rollback {
             db_dir_path,
             db_dir_fd,
             "rollback".to_string(),
+            #[cfg(nomt_verif)]
+            crate::verif::knob("seglog.max_segment_size").unwrap_or(MAX_SEGMENT_SIZE),
+            #[cfg(not(nomt_verif))]
             MAX_SEGMENT_SIZE,
             rollback_start_active.into(),
             rollback_end_active.into(),
